@@ -85,6 +85,8 @@ func featureFor(prop string, idx int) string {
 		return "scale-down-then-advance"
 	case idx%16 == 3 && in("C10"):
 		return "exit-at-completed"
+	case idx%16 == 1 && in("C11"):
+		return "scale-from-zero"
 	}
 	return ""
 }
@@ -100,6 +102,8 @@ func GenForCase(prop string, rng *rand.Rand, idx int) *sim.Scenario {
 		fam = []string{"deployment/bluegreen", "cloneset/bluegreen", "deployment/bluegreen", "cloneset/partition", "deployment/canary"}[idx/16%5]
 	case "scale-down-then-advance":
 		fam = []string{"deployment/canary", "deployment/canary", "cloneset/partition", "deployment/bluegreen"}[idx/16%4]
+	case "scale-from-zero":
+		fam = []string{"cloneset/partition", "statefulset/partition", "deployment/partition", "advstatefulset/partition", "cloneset/partition", "deployment/canary"}[idx/16%6]
 	case "spec-grace-zero":
 		if fam == "daemonset/partition" {
 			fam = "cloneset/partition" // (a DaemonSet release with traffic routing never ends: recorded finding)
@@ -160,6 +164,15 @@ func genForFamilyF(prop string, rng *rand.Rand, family, feature string) *sim.Sce
 		s.ApproveLag = 0
 		s.Profile = "ctrl-eager"
 		s.Events = append(s.Events, sim.Injected{AtStep: 1 + rng.Intn(2), AtState: "StepPaused", Action: fmt.Sprintf("scale:%d", int(s.Replicas)/2), Immediate: true})
+		return s
+	}
+	if feature == "scale-from-zero" {
+		// the user scales the workload to zero while a step is paused and back up a little later: the next batch is
+		// judged on a workload whose status.replicas is still 0 although its spec asks for pods
+		s.Provider = "none"
+		s.Replicas = int32(4 + rng.Intn(7))
+		s.Steps = []sim.Step{{Replicas: "25%", Traffic: -1, Pause: -1}, {Replicas: "50%", Traffic: -1, Pause: -1}, {Replicas: "100%", Traffic: -1, Pause: -1}}
+		s.Events = append(s.Events, sim.Injected{AtStep: 1 + rng.Intn(2), AtState: []string{"StepPaused", "StepUpgrade", "StepPaused"}[rng.Intn(3)], Action: fmt.Sprintf("scale0then:%d", int(s.Replicas)), Immediate: rng.Intn(2) == 0})
 		return s
 	}
 	if feature == "exit-at-completed" {
